@@ -1,3 +1,5 @@
+// dbgnest: timing of nested markup, for debugging cost findings.
+// usage: dbgnest <tag|ulli|h4div> <width> <depth>...
 package main
 
 import (
@@ -12,11 +14,15 @@ import (
 
 func main() {
 	tag := os.Args[1]
-	for _, a := range os.Args[2:] {
+	width, _ := strconv.Atoi(os.Args[2])
+	for _, a := range os.Args[3:] {
 		d, _ := strconv.Atoi(a)
 		open, close := "<"+tag+">", "</"+tag+">"
-		if tag == "ulli" {
+		switch tag {
+		case "ulli":
 			open, close = "<ul><li>", "</li></ul>"
+		case "h4div":
+			open, close = "<h4><div>", "</div></h4>"
 		}
 		doc := strings.Repeat(open, d) + "two words" + strings.Repeat(close, d)
 		t := time.Now()
@@ -27,7 +33,7 @@ func main() {
 		}
 		t1 := time.Since(t)
 		t = time.Now()
-		out := m.Render(76)
-		fmt.Printf("%s depth %d: parse+render80 %v, render76 %v, output %d bytes %d lines\n", tag, d, t1, time.Since(t), len(out), strings.Count(out, "\n")+1)
+		out := m.Render(width)
+		fmt.Printf("%s depth %d (%d bytes): parse+render80 %v, render%d %v, output %d bytes %d lines\n", tag, d, len(doc), t1, width, time.Since(t), len(out), strings.Count(out, "\n")+1)
 	}
 }
